@@ -369,3 +369,14 @@ func ghostEntryKey(s *KeyedStateStore, key []byte) []byte { _, d := s.decodeKey(
 //@   nosafety
 //@   atcall yield: !arg1.After(compositeWatermark)
 //@   order yield after Delete
+
+// ---- per key-group timer queues (C06, C10). The timer store of an operator has one queue per key
+// group of ITS range, each built for that key group (Start+i, not i): after a rescale an operator
+// whose range does not start at 0 must read and write the timers of the groups it now owns.
+//@ func NewTimerStore
+//@   property C06 C10
+//@   nosafety
+//@   requires keyGroupRange.Start >= 0 && keyGroupRange.Start < keyGroupRange.End && keyGroupRange.End <= 65536
+//@   atcall NewKeyGroupPriorityQueue: int(arg1) == keyGroupRange.Start + i
+//@   loop 0:
+//@     invariant 0 <= i
